@@ -26,6 +26,7 @@ import (
 
 	"cuelang.org/go/cue/ast"
 	"cuelang.org/go/cue/format"
+	"cuelang.org/go/cue/literal"
 	"cuelang.org/go/cue/parser"
 	"cuelang.org/go/cue/token"
 	"cuelang.org/go/internal/cueexperiment"
@@ -278,27 +279,125 @@ func diffLine(a, b []byte) string {
 	return "equal"
 }
 
-// c08Class gives the narrow class of a failure: a known syntactic shape when the input has
-// it and the failure is of the kind that shape produces, else kind + mode.
-func c08Class(kind string, m fmtMode, src []byte) string {
-	f0, err := c08Parse(src)
-	if err == nil {
-		if !m.v2 && hasUnaryMerge(f0) && (kind == "output-does-not-parse" || kind == "tree-changed" || kind == "second-fmt-fails") {
-			return "v1-unary-op-merges-with-operand"
-		}
-		if m.v2 && kind == "not-idempotent" && hasHangingClose(f0) {
-			return "v2-multiline-elements-closing-bracket-on-last-element-line"
-		}
-	}
+// c08Class gives the class of a failure: a known syntactic shape of the INPUT when the input
+// has it (most specific first), else kind + formatter.
+func c08Class(kind string, m fmtMode, src []byte, origin string) string {
 	v := "v1"
 	if m.v2 {
 		v = "v2"
 	}
+	if strings.HasPrefix(kind, "comment-moved:lost") {
+		kind = "comment-lost"
+	} else if strings.HasPrefix(kind, "comment-moved:") {
+		kind = "comment-reattached"
+	}
+	f0, err := c08Parse(src)
+	if err != nil {
+		return kind + "-" + v
+	}
+	switch {
+	case !m.v2 && hasUnaryMerge(f0) && (kind == "output-does-not-parse" || kind == "tree-changed" || kind == "second-fmt-fails"):
+		return "v1-unary-op-merges-with-operand"
+	case m.v2 && kind == "not-idempotent" && hasHangingClose(f0):
+		return "v2-multiline-elements-closing-bracket-on-last-element-line"
+	case m.v2 && hasOpenBraceComment(f0):
+		return "v2-comment-after-open-brace:" + kind
+	case hasInteriorComment(f0) || strings.HasPrefix(origin, c08Irregular):
+		return v + "-interior-comment:" + kind
+	case m.simplify && kind == "tree-changed" && hasQuotedLabelWithIdentSibling(f0):
+		return v + "-simplify-unquotes-label-with-identifier-sibling"
+	case m.simplify && kind == "tree-changed" && hasAnyPatternWithAttr(f0):
+		return v + "-simplify-any-pattern-with-attribute-becomes-ellipsis"
+	case strings.Contains(origin, "generated(seed"):
+		return v + "-generated-layout:" + kind
+	}
 	return kind + "-" + v
 }
 
+// hasOpenBraceComment: a `//` comment on the line of an opening `{`, directly after it.
+func hasOpenBraceComment(f *ast.File) bool {
+	for _, p := range commentPlaces(f) {
+		if p.owner == "StructLit" && p.class == "line" {
+			return true
+		}
+	}
+	return false
+}
+
+// hasQuotedLabelWithIdentSibling: a quoted label "x" next to a field whose label is the
+// identifier x where x needs quoting as a string label (#x, _x, _#x): -s must not unquote it.
+func hasQuotedLabelWithIdentSibling(f *ast.File) bool {
+	found := false
+	check := func(decls []ast.Decl) {
+		ids := map[string]bool{}
+		for _, d := range decls {
+			if fl, ok := d.(*ast.Field); ok {
+				if id, ok := fl.Label.(*ast.Ident); ok {
+					ids[id.Name] = true
+				}
+			}
+		}
+		for _, d := range decls {
+			if fl, ok := d.(*ast.Field); ok {
+				if bl, ok := fl.Label.(*ast.BasicLit); ok && bl.Kind == token.STRING {
+					if s, err := literal.Unquote(bl.Value); err == nil && ids[s] && ast.StringLabelNeedsQuoting(s) {
+						found = true
+					}
+				}
+			}
+		}
+	}
+	check(f.Decls)
+	ast.Walk(f, func(n ast.Node) bool {
+		if s, ok := n.(*ast.StructLit); ok {
+			check(s.Elts)
+		}
+		return true
+	}, nil)
+	return found
+}
+
+// hasAnyPatternWithAttr: `[_]: _ @attr(...)`.
+func hasAnyPatternWithAttr(f *ast.File) bool {
+	found := false
+	ast.Walk(f, func(n ast.Node) bool {
+		if fl, ok := n.(*ast.Field); ok && len(fl.Attrs) > 0 && isAnyPattern(fl) {
+			found = true
+		}
+		return true
+	}, nil)
+	return found
+}
+
+func isAnyPattern(x *ast.Field) bool {
+	l, ok := x.Label.(*ast.ListLit)
+	if !ok || len(l.Elts) != 1 || x.Constraint != token.ILLEGAL {
+		return false
+	}
+	a, ok := l.Elts[0].(*ast.Ident)
+	b, ok2 := x.Value.(*ast.Ident)
+	return ok && ok2 && (a.Name == "_" || a.Name == "string") && b.Name == "_"
+}
+
+// hasInteriorComment: a comment that is neither a doc / trailing comment of a declaration or
+// element nor inside a struct or list body: it sits inside an expression, between a label and
+// its value, inside label brackets, after an opening parenthesis, ...
+func hasInteriorComment(f *ast.File) bool {
+	for _, p := range commentPlaces(f) {
+		switch p.owner {
+		case "File", "Package", "ImportDecl", "ImportSpec", "Field", "EmbedDecl", "StructLit", "ListLit",
+			"Comprehension", "LetClause", "Attribute", "Ellipsis":
+			continue
+		}
+		if p.class != "line" {
+			return true
+		}
+	}
+	return false
+}
+
 // c08Shrink removes lines (then shorter chunks) while the same failure class persists.
-func c08Shrink(src []byte, m fmtMode, class string, budget int) []byte {
+func c08Shrink(src []byte, m fmtMode, class, origin string, budget int) []byte {
 	still := func(s []byte) bool {
 		if budget <= 0 {
 			return false
@@ -309,7 +408,7 @@ func c08Shrink(src []byte, m fmtMode, class string, budget int) []byte {
 			return false
 		}
 		for _, f := range fails {
-			if c08Class(f.kind, m, s) == class {
+			if c08Class(f.kind, m, s, origin) == class {
 				return true
 			}
 		}
@@ -383,12 +482,12 @@ func c08Sweep(c *Cfg, m fmtMode, inputs []c08Input, countKey string) {
 			c.Direct(true, "", "", nil)
 		}
 		for _, f := range r.fails {
-			class := c08Class(f.kind, m, inputs[i].src)
+			class := c08Class(f.kind, m, inputs[i].src, inputs[i].origin)
 			c.Count("fail:" + class)
 			src := inputs[i].src
 			if shrunk[class] < 2 && len(src) < 20000 { // minimise the first few of every class
 				shrunk[class]++
-				src = c08Shrink(src, m, class, 150)
+				src = c08Shrink(src, m, class, inputs[i].origin, 150)
 			}
 			s := string(src)
 			if len(s) > 3000 {
@@ -425,7 +524,19 @@ func c08Debug(want string) {
 }
 
 func runC08(c *Cfg) {
-	if d := os.Getenv("C08_DEBUG"); d != "" {
+	if d := os.Getenv("C08_DEBUG"); d == "cli" {
+		var ins []c08Input
+		for i, s := range c08Corpus() {
+			if i%1 == 0 {
+				if _, err := c08Parse(s.data); err == nil {
+					ins = append(ins, c08Input{s.name, s.data})
+				}
+			}
+		}
+		c08Log("cli debug with %d files", len(ins))
+		c08CLI(c, NewRng(1), ins)
+		return
+	} else if d != "" {
 		c08Debug(d)
 		return
 	}
